@@ -90,7 +90,7 @@ def monitor(out, ws, name, chunk=120):
         raise vlib.ToolError("refstable crashed: " + p.stderr.decode()[-2000:])
     recs = vlib.json_lines(p.stdout)
     summary = [r for r in recs if r["kind"] == "summary"][0]
-    tables = open(tpath).read().splitlines()
+    tables = [l for l in open(tpath).read().split("\n") if l]
     nfail = 0
     for c0 in range(0, len(tables), chunk):
         part = tables[c0:c0 + chunk]
